@@ -251,6 +251,13 @@ func assumeSucceeds(fn *ssa.Function, call *ssa.Call) (engine.EdgeSet, bool) {
 	return engine.EdgeSet{}.Add(nonNil...), len(nonNil) > 0
 }
 
+// mustCancelOnExit: functions that keep owning a derived context although they park its cancel
+// function in an object they allocate: parking is not a hand-off there, every exit must call or
+// defer the cancel function.
+var mustCancelOnExit = map[string]string{
+	"(*netceptor.Netceptor).runProtocol": "the session's reader, writer and initial-message goroutines stop only on this context; the connection-table entry that also holds the cancel function is removed again on every exit, so nobody else can cancel it",
+}
+
 func lostCancel(r *engine.Report, p *engine.Program, scope []*ssa.Function) {
 	n := 0
 	for _, fn := range scope {
@@ -272,6 +279,7 @@ func lostCancel(r *engine.Report, p *engine.Program, scope []*ssa.Function) {
 			cv := cancels[0]
 			uses := map[ssa.Instruction]bool{}
 			var cell *ssa.Alloc
+			ownedField := false
 			for _, rr := range *cv.Referrers() {
 				if _, isDbg := rr.(*ssa.DebugRef); isDbg {
 					continue
@@ -279,6 +287,24 @@ func lostCancel(r *engine.Report, p *engine.Program, scope []*ssa.Function) {
 				if st, ok := rr.(*ssa.Store); ok && st.Val == cv {
 					if a, ok := st.Addr.(*ssa.Alloc); ok {
 						cell = a // spilled because a closure captures it: the store alone is not a use
+						continue
+					}
+					// stored into a field of an object this function has just allocated: the function
+					// still owns the context; only calling/deferring the stored function releases it
+					if fa, ok := st.Addr.(*ssa.FieldAddr); ok && engine.IsFreshAlloc(fa.X) && mustCancelOnExit[engine.FuncName(fn)] != "" {
+						fv := engine.FieldAddrVar(fa)
+						for _, b := range fn.Blocks {
+							for _, in := range b.Instrs {
+								c, isCall := in.(ssa.CallInstruction)
+								if !isCall {
+									continue
+								}
+								if f2, base := engine.FieldOfLoad(c.Common().Value); f2 == fv && engine.Unwrap(base) == engine.Unwrap(fa.X) {
+									uses[in] = true
+								}
+							}
+						}
+						ownedField = true
 						continue
 					}
 				}
@@ -305,8 +331,12 @@ func lostCancel(r *engine.Report, p *engine.Program, scope []*ssa.Function) {
 					continue
 				}
 			}
+			whyBad := "a path returns without using the cancel function: the derived context (and what waits on it) is never released"
+			if ownedField {
+				whyBad = "the cancel function is only parked in a field of an object this function allocates; a path returns without calling or deferring it, so the goroutines waiting on the derived context (session reader/writer) outlive the function forever"
+			}
 			r.Check("R4-lostcancel", construct, call.Pos(), bad == nil,
-				"on every path to a return the cancel function is called, deferred, stored or handed on", "a path returns without using the cancel function: the derived context (and what waits on it) is never released")
+				"on every path to a return the cancel function is called, deferred, stored in a longer-lived owner or handed on", whyBad)
 		}
 	}
 	r.Extra["context_with_calls"] = n
